@@ -1186,6 +1186,14 @@ def finite_source(prog, body, src, depth=0):
                 ret = fb.local_ty(0)
                 if ty_head(ret) in ("Vec", "String"):
                     return "Vec returned by %s" % name
+                # a crate function returning iter::from_fn(closure) whose closure is FROMFN-FINITE
+                if len(fb.cfg.returns) == 1:
+                    rv = prog.simp(sym_of(fb).val((0, ()), fb.cfg.returns[0], "term"), fb)
+                    if rv[0] == "call" and rv[1] == "std::iter::from_fn" and rv[2] and rv[2][0][0] == "closure":
+                        cb = prog.body(rv[2][0][1])
+                        why = fromfn_finite(prog, cb) if cb is not None else None
+                        if why:
+                            return "from_fn iterator returned by %s (%s)" % (name, why)
         if name in ("Vec::new", "Vec::with_capacity"):
             return "Vec"
     if src[0] == "param":
